@@ -21,7 +21,7 @@ def main():
         confirm.update(load(f))
     final = load(final_file)
     notes = json.load(open(notes_file)) if os.path.exists(notes_file) else {}
-    for prop in sorted(os.listdir(src_root)):
+    for prop in sorted(x for x in os.listdir(src_root) if os.path.isdir(os.path.join(src_root, x))):
         for x in sorted(os.listdir(os.path.join(src_root, prop))):
             d = os.path.join(src_root, prop, x)
             if not os.path.isdir(d) or not os.path.exists(os.path.join(d, 'patch.diff')):
